@@ -5,6 +5,7 @@
 import WowVerif.Model.Dispatch01
 import WowVerif.Model.Dispatch03
 import WowVerif.Model.Dispatch04
+import WowVerif.Model.Dispatch05
 import WowVerif.Model.Dispatch06
 import WowVerif.Model.Dispatch07
 import WowVerif.Model.Dispatch08
@@ -32,7 +33,7 @@ structure St where
 
 def step (st : St) (line : String) : St × String :=
   let toks := (line.trimAscii.toString.splitOn " ").filter (· ≠ "")
-  match ((((((((((((((((c04 toks).orElse (fun _ => c17 toks)).orElse (fun _ => c18 toks)).orElse (fun _ => c18b toks)).orElse (fun _ => c18c toks)).orElse (fun _ => c03 toks)).orElse (fun _ => c09 toks)).orElse (fun _ => c12 toks)).orElse (fun _ => c11 toks)).orElse (fun _ => c20 toks)).orElse (fun _ => c06 toks)).orElse (fun _ => c07 toks)).orElse (fun _ => c10 toks)).orElse (fun _ => c16 toks)).orElse (fun _ => c14 toks)).orElse (fun _ => c15 toks)).orElse (fun _ => c13 toks) with
+  match (((((((((((((((((c04 toks).orElse (fun _ => c17 toks)).orElse (fun _ => c18 toks)).orElse (fun _ => c18b toks)).orElse (fun _ => c18c toks)).orElse (fun _ => c03 toks)).orElse (fun _ => c09 toks)).orElse (fun _ => c12 toks)).orElse (fun _ => c11 toks)).orElse (fun _ => c20 toks)).orElse (fun _ => c06 toks)).orElse (fun _ => c07 toks)).orElse (fun _ => c10 toks)).orElse (fun _ => c16 toks)).orElse (fun _ => c14 toks)).orElse (fun _ => c15 toks)).orElse (fun _ => c13 toks)).orElse (fun _ => c05 toks) with
   | some r => (st, r)
   | none =>
     match c08 st.chain toks with
